@@ -111,7 +111,7 @@ def uintOp (op : String) (n x : Nat) (rest : List Nat) : Option String :=
   | "set_bit_vartime", [i, v] =>
     -- property: constant-time and vartime variants return identical results
     let r0 := if i < bits then (if v = 1 then x ||| 2 ^ i else x - (if x.testBit i then 2 ^ i else 0)) else x
-    both (optHex (setBitVartime a i (v = 1))) (natToHex r0)
+    both (limbsHex (setBitVartime a i (v = 1))) (natToHex r0)
   | "and", [y] => both (limbsHex (ubitand a (toLimbs n y))) (natToHex (x &&& y))
   | "or", [y] => both (limbsHex (ubitor a (toLimbs n y))) (natToHex (x ||| y))
   | "xor", [y] => both (limbsHex (ubitxor a (toLimbs n y))) (natToHex (x ^^^ y))
@@ -216,14 +216,14 @@ def boxedOp (op : String) (n x : Nat) (rest : List Nat) : Option String :=
     both (limbsHexLen (setBit a i (if v = 1 then WMAX else 0))) (bhex n r0)
   | "set_bit_vartime", [i, v] =>
     let r0 := if i < bits then (if v = 1 then x ||| 2 ^ i else x - (if x.testBit i then 2 ^ i else 0)) else x
-    both (optB (setBitVartime a i (v = 1)) "panic") (bhex n r0)
+    both (limbsHexLen (setBitVartime a i (v = 1))) (bhex n r0)
   | "not", [] => both (limbsHexLen (unot a)) (bhex n (m - 1 - x))
   | "and_limb", [l] =>
     both (limbsHexLen (ubitandLimb a l)) (bhex n (x &&& (l * ((m - 1) / (B - 1)))))
   | "and", [ny, y] => both (limbsHexLen (mapLimbs (· &&& ·) a (toLimbs ny y))) (bhex (max n ny) (x &&& y))
   | "or", [ny, y] => both (limbsHexLen (mapLimbs (· ||| ·) a (toLimbs ny y))) (bhex (max n ny) (x ||| y))
   | "xor", [ny, y] => both (limbsHexLen (mapLimbs (· ^^^ ·) a (toLimbs ny y))) (bhex (max n ny) (x ^^^ y))
-  | "or_assign", [ny, y, _] => both (limbsHex (orAssign a (toLimbs ny y))) (natToHex (x ||| y))
+  | "or_assign", [ny, y, _] => both (limbsHexLen (orAssign a (toLimbs ny y))) (bhex (max n ny) (x ||| y))
   | _, _ => none
 
 /-- `c05.l.*`: a single `Limb` -/
